@@ -339,30 +339,38 @@ theorem eta2_map (t : Nat) (ht : t < 15) : -2 ≤ (2 : Int) - ((t - ((205 * t) >
       (2 : Int) - ((t.val - ((205 * t.val) >>> 10) * 5 : Nat) : Int) ≤ 2 := by decide
   exact this ⟨t, ht⟩
 
-def Small (l : List Int) : Prop := ∀ x ∈ l, -4 ≤ x ∧ x ≤ 4
+/-- η as the samplers of the three `poly` copies realise it -/
+def etaI : Lvl → Int
+  | .l3 => 4
+  | _ => 2
 
-theorem small_snoc (acc : List Int) (v : Int) (h : Small acc) (hv : -4 ≤ v ∧ v ≤ 4) : Small (acc ++ [v]) := by
+def SmallE (E : Int) (l : List Int) : Prop := ∀ x ∈ l, -E ≤ x ∧ x ≤ E
+def Small (l : List Int) : Prop := SmallE 4 l
+
+theorem SmallE.small {E : Int} (hE : E ≤ 4) {l : List Int} (h : SmallE E l) : Small l := fun x hx => by have := h x hx; unfold Small SmallE at *; omega
+
+theorem small_snoc (E : Int) (acc : List Int) (v : Int) (h : SmallE E acc) (hv : -E ≤ v ∧ v ≤ E) : SmallE E (acc ++ [v]) := by
   intro x hx
   rcases List.mem_append.mp hx with hx | hx
   · exact h x hx
   · simp at hx; subst hx; exact hv
 
 /-- one conditional push of the sampler -/
-theorem push_step (c : Prop) [Decidable c] (acc acc' : List Int) (v : Int) (acap alen : Nat) (hs : Small acc) (hv : c → -4 ≤ v ∧ v ≤ 4)
+theorem push_step (E : Int) (c : Prop) [Decidable c] (acc acc' : List Int) (v : Int) (acap alen : Nat) (hs : SmallE E acc) (hv : c → -E ≤ v ∧ v ≤ E)
     (hl : acc.length ≤ alen) (hc : c → acc.length < alen)
     (h : (if c then (if acc.length < acap then (.ok (acc ++ [v]) : Chk (List Int)) else .error .oob) else .ok acc) = .ok acc') :
-    Small acc' ∧ acc'.length ≤ alen := by
+    SmallE E acc' ∧ acc'.length ≤ alen := by
   split at h
   · rename_i hcc
     split at h
     · injection h with h; subst h
-      exact ⟨small_snoc acc v hs (hv hcc), by have := hc hcc; simp; omega⟩
+      exact ⟨small_snoc E acc v hs (hv hcc), by have := hc hcc; simp; omega⟩
     · cases h
   · injection h with h; subst h; exact ⟨hs, hl⟩
 
 theorem rej_eta_loop_range (lv : Lvl) (alen acap : Nat) (buf : List Nat) (buflen : Nat) : ∀ (fuel pos : Nat) (acc r : List Int),
-    Small acc → acc.length ≤ alen → rej_eta_loop lv alen acap buf buflen fuel pos acc = .ok r →
-    Small r ∧ r.length ≤ alen := by
+    SmallE (etaI lv) acc → acc.length ≤ alen → rej_eta_loop lv alen acap buf buflen fuel pos acc = .ok r →
+    SmallE (etaI lv) r ∧ r.length ≤ alen := by
   intro fuel
   induction fuel with
   | zero => intro pos acc r ha hl h; simp [rej_eta_loop] at h; subst h; exact ⟨ha, hl⟩
@@ -373,39 +381,40 @@ theorem rej_eta_loop_range (lv : Lvl) (alen acap : Nat) (buf : List Nat) (buflen
     · rename_i hc
       obtain ⟨b, _, h⟩ := bind_eq_ok.mp h
       simp only at h
-      have e2 : ∀ (acc0 : List Int), Small acc0 → acc0.length ≤ alen →
+      have e2 : ∀ (acc0 : List Int), SmallE 2 acc0 → acc0.length ≤ alen →
           (do
             let acc ← (if b &&& 0x0F < 15 then (if acc0.length < acap then (.ok (acc0 ++ [(2 : Int) - (((b &&& 0x0F) - ((205 * (b &&& 0x0F)) >>> 10) * 5 : Nat) : Int)]) : Chk (List Int)) else .error .oob) else .ok acc0)
             let acc ← (if b >>> 4 < 15 ∧ acc.length < alen then (if acc.length < acap then (.ok (acc ++ [(2 : Int) - ((b >>> 4 - ((205 * (b >>> 4)) >>> 10) * 5 : Nat) : Int)]) : Chk (List Int)) else .error .oob) else .ok acc)
-            rej_eta_loop lv alen acap buf buflen n (pos + 1) acc) = .ok r → acc0.length < alen → Small r ∧ r.length ≤ alen := by
-        intro acc0 hs0 hl0 h hlt
+            rej_eta_loop lv alen acap buf buflen n (pos + 1) acc) = .ok r → acc0.length < alen →
+            (SmallE 2 r ∧ r.length ≤ alen → SmallE (etaI lv) r ∧ r.length ≤ alen) → (∀ a, SmallE 2 a → SmallE (etaI lv) a) → SmallE (etaI lv) r ∧ r.length ≤ alen := by
+        intro acc0 hs0 hl0 h hlt _ hconv
         obtain ⟨acc1, h1, h⟩ := bind_eq_ok.mp h
         obtain ⟨acc2, h2, h⟩ := bind_eq_ok.mp h
-        have s1 := push_step _ acc0 acc1 _ acap alen hs0 (fun hh => by have := eta2_map _ hh; omega) hl0 (fun _ => hlt) h1
-        have s2 := push_step _ acc1 acc2 _ acap alen s1.1 (fun hh => by have := eta2_map _ hh.1; omega) s1.2 (fun hh => hh.2) h2
-        exact ih _ _ r s2.1 s2.2 h
+        have s1 := push_step 2 _ acc0 acc1 _ acap alen hs0 (fun hh => by have := eta2_map _ hh; omega) hl0 (fun _ => hlt) h1
+        have s2 := push_step 2 _ acc1 acc2 _ acap alen s1.1 (fun hh => by have := eta2_map _ hh.1; omega) s1.2 (fun hh => hh.2) h2
+        exact ih _ _ r (hconv _ s2.1) s2.2 h
       cases lv with
       | l3 =>
         simp only at h
         obtain ⟨acc1, h1, h⟩ := bind_eq_ok.mp h
         obtain ⟨acc2, h2, h⟩ := bind_eq_ok.mp h
-        have s1 := push_step _ acc acc1 _ acap alen ha (fun hh => by
+        have s1 := push_step 4 _ acc acc1 _ acap alen ha (fun hh => by
           have : ((b &&& 0x0F : Nat) : Int) < 9 := by exact_mod_cast hh
           omega) hl (fun _ => hc.1) h1
-        have s2 := push_step _ acc1 acc2 _ acap alen s1.1 (fun hh => by
+        have s2 := push_step 4 _ acc1 acc2 _ acap alen s1.1 (fun hh => by
           have : ((b >>> 4 : Nat) : Int) < 9 := by exact_mod_cast hh.1
           omega) s1.2 (fun hh => hh.2) h2
         exact ih _ _ r s2.1 s2.2 h
-      | l2 => simp only at h; exact e2 acc ha hl h hc.1
-      | l5 => simp only at h; exact e2 acc ha hl h hc.1
+      | l2 => simp only at h; exact e2 acc ha hl h hc.1 (fun x => x) (fun _ x => x)
+      | l5 => simp only at h; exact e2 acc ha hl h hc.1 (fun x => x) (fun _ x => x)
     · injection h with h; subst h; exact ⟨ha, hl⟩
 
 theorem rej_eta_range (lv : Lvl) (alen acap : Nat) (buf : List Nat) (buflen : Nat) (r : List Int) (h : rej_eta lv alen acap buf buflen = .ok r) :
-    Small r ∧ r.length ≤ alen :=
+    SmallE (etaI lv) r ∧ r.length ≤ alen :=
   rej_eta_loop_range lv alen acap buf buflen _ 0 [] r (by intro x hx; cases hx) (by simp) h
 
 theorem uniform_eta_loop_small (lv : Lvl) : ∀ (fuel : Nat) (st : KeccakState) (acc r : List Int),
-    Small acc → acc.length ≤ N → uniform_eta_loop lv fuel st acc = .ok r → r.length = N ∧ Small r := by
+    SmallE (etaI lv) acc → acc.length ≤ N → uniform_eta_loop lv fuel st acc = .ok r → r.length = N ∧ SmallE (etaI lv) r := by
   intro fuel
   induction fuel with
   | zero => intro st acc r _ _ h; simp [uniform_eta_loop] at h
@@ -427,7 +436,7 @@ theorem uniform_eta_loop_small (lv : Lvl) : ∀ (fuel : Nat) (st : KeccakState) 
       exact ⟨by omega, ha⟩
 
 theorem poly_uniform_eta_small (lv : Lvl) (fuel : Nat) (seed : List Nat) (nonce : Nat) (r : List Int)
-    (h : poly_uniform_eta lv fuel seed nonce = .ok r) : r.length = 256 ∧ Small r := by
+    (h : poly_uniform_eta lv fuel seed nonce = .ok r) : r.length = 256 ∧ SmallE (etaI lv) r := by
   unfold poly_uniform_eta at h
   obtain ⟨st, _, h⟩ := bind_eq_ok.mp h
   obtain ⟨⟨buf, st1⟩, _, h⟩ := bind_eq_ok.mp h
@@ -438,7 +447,7 @@ theorem poly_uniform_eta_small (lv : Lvl) (fuel : Nat) (seed : List Nat) (nonce 
   exact ⟨by rw [this.1]; decide, this.2⟩
 
 theorem vec_uniform_eta_small (lv : Lvl) (fuel : Nat) (seed : List Nat) : ∀ (n : Nat) (nonce : Int) (v : List Poly),
-    vec_uniform_eta_go lv fuel seed n nonce = .ok v → v.length = n ∧ ∀ a ∈ v, a.length = 256 ∧ Small a := by
+    vec_uniform_eta_go lv fuel seed n nonce = .ok v → v.length = n ∧ ∀ a ∈ v, a.length = 256 ∧ SmallE (etaI lv) a := by
   intro n
   induction n with
   | zero => intro nonce v h; simp [vec_uniform_eta_go] at h; subst h; exact ⟨rfl, by intro a ha; cases ha⟩
